@@ -16,7 +16,7 @@ PROPERTY = "C05"
 LEVEL = "exploration"
 BUDGET_S = {"quick": 45, "thorough": 600}
 FLOOR = {"quick": 3000, "thorough": 30000}
-MUST_REACH = ("ipnets_returns_judged", "queries_after_reassignment", "limit_rejections_judged")
+MUST_REACH = ("ipnets_returns_judged", "queries_after_reassignment", "limit_rejections_judged", "factory_called_again")
 RULE = ("cases: single (base, mask) objects incl. all contiguous masks, complete enumeration of the masks over a "
         "10-bit support, random supports with k<=12 (quick) / k<=16 (+k=17..20) non-contiguous bits, dirty bases; "
         "limits L in 0..30 with k in {L-1,L,L+1} and invalid L; histories of 2..8 line reassignments interleaved "
@@ -314,6 +314,18 @@ def execute(ctx, case: dict) -> None:
         else:
             _check_views(case, ctx, obj, cv, cw)
             obj.ipnets()
+            # the factory hands out independent objects: reassign the first result, ask the factory again
+            try:
+                obj.line = "10.77.0.0 0.0.5.5"
+                obj.max_ncwb = 3
+                again = Wildcard.fsubnet(text)
+                _check_views(case, ctx, again, cv, cw)
+                again.ipnets()
+                if again.max_ncwb != 16:
+                    ctx.violation(case, "a Wildcard from the factory inherits the limit of an earlier result", again.max_ncwb)
+                ctx.count("factory_called_again")
+            except ValueError:
+                pass
         ctx.judged(sig=("fsubnet", plen, clean), nontrivial=True)
     _drain(case, ctx)
 
@@ -370,6 +382,9 @@ def gen_cases(ctx):
         if mine():
             yield {"k": "single", "v": _rand_base(rng), "w": _mask_with(rng, k, rng.randint(0, 8)),
                    "max_ncwb": None, "via": "Wildcard", "expand_max": 16 if thorough else 12}
+    if mine():  # one expansion above the default limit in every run (2^17 networks)
+        yield {"k": "single", "v": _rand_base(rng), "w": _mask_with(rng, 17, rng.randint(0, 4)), "max_ncwb": 17,
+               "via": rng.choice(["Wildcard", "Address"]), "expand_max": 17}
     if thorough:
         for k in (17, 18, 19, 20):
             if mine():
